@@ -425,7 +425,7 @@ def check_rect(case) -> Result:
         "mos:" + (mos or "absent"),
         "rect:aspect-differs" if aspect_differs else "rect:same-aspect",
         "rect:dst-square" if de[2] == de[3] else "rect:dst-not-square",
-    )
+    ) + (("rect:tiny-side",) if min(se[2], se[3], de[2], de[3]) <= Fraction(1, 10**9) else ())
     desc = f"rect_to_rect(src={_fmt(src)}, dst={_fmt(dst)}, {None if align is None else (align + (' ' + mos if mos else ''))!r})"
     try:
         if align is None:
@@ -792,11 +792,12 @@ def _decode_rect(data: bytes):
     exact = d.bool()
     if exact:
         pos = lambda: F(0) if d.below(6) == 0 else F(d.int(-200, 200), d.int(1, 8))
-        size = lambda: F(d.int(1, 400), d.int(1, 16))
+        # every non-empty rectangle: also sides far below any "almost zero" tolerance (1e-9 .. 1e-15)
+        size = lambda: F(d.int(1, 400), d.int(1, 16)) if d.below(8) else F(d.int(1, 9), 10 ** d.int(6, 15))
         enc = _enc
     else:
         pos = lambda: d.choice([0.0, float(d.int(-100, 100)), d.int(-(10**7), 10**7) / 1000.0, d.int(-(10**7), 10**7) / 997.0])
-        size = lambda: d.choice([float(d.int(1, 1000)), 10.0 ** (d.int(-2000, 4000) / 1000.0), d.int(1, 10**6) / 7.0])
+        size = lambda: d.choice([float(d.int(1, 1000)), 10.0 ** (d.int(-2000, 4000) / 1000.0), d.int(1, 10**6) / 7.0, float(d.int(1, 1000)), 10.0 ** (d.int(-15000, -2000) / 1000.0)])
         enc = lambda v: v
     src = [pos(), pos(), size(), size()]
     dst = [pos(), pos(), size(), size()]
